@@ -150,6 +150,26 @@ CHECKS = {
     note=('The pyparsing stage on arbitrary strings, Pass1-3, folding, the code generator, optimize and the assembler are NOT modelled in Gallina (DESIGN 5/C06 says why): for them this check is exploration, not proof. The property is false on the unchanged tree: 31 known findings with witnesses record where. '
           'Trusted: Coq kernel, extraction, OCaml driver, Python harness (generators, exception-site classification, delta-debugging shrinker).'),
     technique='small Rocq model + differential T-fn for the parse actions and position arithmetic; seeded deterministic malformed-input search with exception-site signatures for the rest'),
+ 'C01': dict(
+    category='proof',
+    text=('Rocq development: coq/Src/Sem.v is an executable SPECIFICATION of the QBASIC core language (typed values, implicit conversions, all 18 binary operators, builtins, assignment, PRINT, IF, WHILE, DO/LOOP, FOR/STEP, SELECT CASE, EXIT, GOTO, GOSUB/RETURN, procedures with by-reference/by-value arguments and recursion, arrays, records, CONST/SHARED/STATIC/DEFtype, INPUT/READ/RND, error classes with the failing line), '
+          'with the proof that its pure evaluator equals it. Theorems about the code-generator model for pure scalar expressions (Models/ExprCodegen.v) against that specification: for the INTEGER/LONG expression fragment (literals, local variables, unary ops, + - *, six comparisons, AND OR XOR EQV IMP, implicit INTEGER->LONG) the generated code pushes exactly the reference value with the static type, or traps with the matching code; '
+          'the heap changes only by default materialisation and the rest of the state is untouched; stack discipline for every pure expression; result-type lemma for all operators; `\`, MOD and `^` refuted by witness (D06, D32). Everything else of the property is decided by running generated programs (operator x type x boundary-value matrix with operands in variables, a fixed seeded program family, hand-built probes) '
+          'through the REAL compiler at the six configurations and the REAL machine against the EXTRACTED reference interpreter (events, outcome, failing line), with per-defect attribution: a disagreement is a known finding only if the reference with exactly that qbee quirk switched on reproduces the run.'),
+    design_ref='DESIGN.md 5/C01',
+    note=('Trusted: Rocq kernel, extraction, and the reference semantics as the meaning of QBASIC; number text from NumFmt, PRINT layout from Print. Unverified glue: generator, pretty printer, harness. NOT proved: statements, floats, strings, division-like operators, -O1/-O2 and debug equivalences (C02/C08): those are exploration against the extracted specification. '
+          'Not explored: graphics/sound/memory/file statements, ON ERROR (C10), dynamic arrays, array passing, record parameters, corpus programs.'),
+    technique='Rocq proof over a hand-written code-generator and machine model + differential testing of the real pipeline against an extracted executable reference semantics'),
+ 'C05': dict(
+    category='proof',
+    text=('30 closed Rocq theorems. (a) Block assembler (parse_string block stack, Block.create, create_block methods; Models/Blocks.v): it returns a tree iff the statement stream is generated by the block grammar, the parse is unique, the tree flattens back to the stream; every diagnostic is on the line of a statement of the program; each bracket error class '
+          '(terminator without opener, wrong terminator, unclosed block at the innermost opener line, NEXT with the wrong variable) is characterised in both directions; the whole front against the strict grammar holds under an explicit guard with five refutation witnesses (second ELSE, stray CASE, CASE ELSE forms: D28). '
+          '(b) Translator tie: the operator typing decision (BinaryOp.type/UnaryOp.type on all operators x type pairs) and is_coercible_to are REGENERATED from the imported code on every run (coq/Gen/TypeTable.v) and proved to satisfy the declarative typing rule entry by entry (vm_compute over 882 entries). '
+          'All other static-error rules are decided by FAULT ENUMERATION: 64 valid programs x every applicable site x 62 fault kinds against Compiler.compile at the six configurations (never accepted, never an internal exception, expected category, position on the injected line), valid programs with an unrelated statement still accepted, the repository compile-error tests.'),
+    design_ref='DESIGN.md 5/C05',
+    note=('Trusted: Coq kernel, ExtrOcamlBasic, OCaml driver, Python harness including the fault catalogue oracle, gen_c05_tables.py translator. The pyparsing grammar is not modelled; Pass1-3 checks other than the block checks and literal parsing have no theorem (fault enumeration only). '
+          'The thorough tier was not soaked to completion during the build.'),
+    technique='Rocq proof over a hand-written Gallina model and a generated finite table + fault enumeration / differential correspondence against the real compiler'),
 }
 
 ALL = ['C%02d' % i for i in range(1, 21)]
